@@ -66,9 +66,9 @@ def stripWordsOnly (s : Str) : Str := collapseSpaces (strip s)
 /-- `[x for x in value.split(' ') if x]`. -/
 def splitWords (s : Str) : List Str := (splitChar ' ' s).filter (fun w => !w.isEmpty)
 
-/-- class names from the text assigned to `className` (`tostr(None)` is the word `None`). -/
+/-- class names from the text assigned to `className` (no value — `<div class>` — means no class names) -/
 def classNamesOf (v : Option Str) : List Str :=
-  splitWords (stripWordsOnly (match v with | some s => s | none => "None".toList))
+  splitWords (stripWordsOnly (match v with | some s => s | none => []))
 
 /-- index of the first `c`, as `str.index` (none = ValueError). -/
 def indexOf? (c : Char) : Str → Option Nat
@@ -107,9 +107,8 @@ def AttrState.set (st : AttrState) (k : Str) (v : Option Str) : AttrState :=
   if k = "style".toList then
     -- `StyleAttribute(value)`: a missing value is the empty style
     let m := styleToDict (match v with | some s => s | none => [])
-    -- `_ensureHtmlAttribute` (sets the object in place / deletes the key), then `dict.__setitem__(key, raw)`
-    let d := if m.isEmpty then dictDel st.d k else dictSet st.d k v
-    { st with d := dictSet d k v, style := m }
+    -- `_ensureHtmlAttribute`: the key holds the style object exactly while the style is non-empty
+    { st with d := (if m.isEmpty then dictDel st.d k else dictSet st.d k v), style := m }
   else if k = "class".toList then
     { st with classes := classNamesOf v }
   else if k = "spellcheck".toList then
